@@ -1,3 +1,51 @@
-From SV Require Import Num Strat.
-Theorem placeholder : True. Proof. exact I. Qed.
-Print Assumptions placeholder.
+(* Property C10 — greedy and balanced follow their documented rule exactly.
+   PARTIAL.  Proved on the model of the per-vehicle decision (Strat.vehicle_charge, R instance), for all states:
+   - greedy, normal price, desired SoC reached (within EPS): nothing is charged;
+   - greedy, normal price, vehicle in need: exactly one battery request whose target power is
+     clamp_power(min(power needed to reach the desired SoC in this step, remaining connector power + supporting
+     stationary-battery power)); it is >= 0, at most the station's remaining rating, at most the power needed (so the
+     request aims at or below the desired SoC — C09_greedy_request) and at most the available power;
+   - greedy, cheap price: one request limited to clamp_power(remaining connector power), at most the station's remaining
+     rating and the remaining connector power;
+   - balanced, normal price, in need, k = ceil(time to departure / interval) > 0: target power
+     clamp_power(min(power needed / k, remaining connector power)) — never more than the even share.
+   The model is tied to /repo by the exact per-step correspondence of ./check C10 (commands, SoCs, loads of every
+   sampled recorded step).  NOT proved: a refinement of the whole strategy_step (surplus distribution, stationary
+   batteries, dictionary bookkeeping) to an independent specification; the rule's consequences for those parts are
+   evaluated on the recorded steps. *)
+From Coq Require Import ZArith Reals.
+From SV Require Import Num RNum Battery Strat Service StratProps.
+Open Scope R_scope.
+
+Theorem C10_greedy_idle : forall o v cs left av, vh_desired v - soc (vh_bat v) <= so_eps o ->
+  @vehicle_charge R RNum SGreedy o v cs left av false = Ok (vh_bat v, 0, false).
+Proof. exact greedy_idle. Qed.
+Print Assumptions C10_greedy_idle.
+
+Theorem C10_greedy_request : forall o v cs left av r, so_eps o < vh_desired v - soc (vh_bat v) -> eff (vh_bat v) <> 0 -> 0 <= so_eps o ->
+  0 <= cap (vh_bat v) -> 0 < eff (vh_bat v) -> 0 <= so_tsph o ->
+  @vehicle_charge R RNum SGreedy o v cs left av false = r ->
+  let pn := (vh_desired v - soc (vh_bat v)) * cap (vh_bat v) / eff (vh_bat v) * so_tsph o in
+  let p := clampv v cs (Rmin pn (left + av)) in
+  r = (let! (b', a, _) := @load R RNum (vh_bat v) (so_hours o) None (TPower p) in Ok (b', a, true)) /\
+  0 <= p /\ p <= Rmax (cs_maxp cs - cs_cur cs) 0 /\ p <= pn /\ (0 <= left + av -> p <= left + av).
+Proof. exact greedy_request. Qed.
+Print Assumptions C10_greedy_request.
+
+Theorem C10_greedy_cheap : forall o v cs left av,
+  @vehicle_charge R RNum SGreedy o v cs left av true =
+    (let! (b', a, _) := @load R RNum (vh_bat v) (so_hours o) (Some (clampv v cs left)) TNone in Ok (b', a, false)) /\
+  0 <= clampv v cs left <= Rmax (cs_maxp cs - cs_cur cs) 0 /\ (0 <= left -> clampv v cs left <= left).
+Proof. exact greedy_cheap. Qed.
+Print Assumptions C10_greedy_cheap.
+
+Theorem C10_balanced_request : forall o v cs left av etd r, so_eps o < vh_desired v - soc (vh_bat v) -> 0 < eff (vh_bat v) -> 0 <= so_eps o ->
+  0 <= cap (vh_bat v) -> 0 <= so_tsph o -> vh_etd v = Some etd -> (0 < steps_left (etd - so_now o) (so_interval o))%Z ->
+  @vehicle_charge R RNum SBalanced o v cs left av false = r ->
+  let k := steps_left (etd - so_now o) (so_interval o) in
+  let q := (vh_desired v - soc (vh_bat v)) * cap (vh_bat v) / eff (vh_bat v) * so_tsph o / IZR k in
+  let p := clampv v cs (Rmin q left) in
+  r = (let! (b', a, _) := @load R RNum (vh_bat v) (so_hours o) None (TPower p) in Ok (b', a, true)) /\
+  0 <= p /\ p <= Rmax (cs_maxp cs - cs_cur cs) 0 /\ p <= q /\ (0 <= left -> p <= left).
+Proof. exact balanced_request. Qed.
+Print Assumptions C10_balanced_request.
